@@ -9,3 +9,5 @@
 pub mod common;
 pub mod rings;
 pub mod c15;
+pub mod chans;
+pub mod c08;
